@@ -56,7 +56,7 @@ func VerifC02_PassEndState() {
 	n := verifrt.Choice("replicas", 2, 3)
 	var pods []*corev1.Pod
 	for i := 0; i < n; i++ {
-		p := w.addPod("web-"+strconv.Itoa(i), "", verifrt.Quantity("web-"+strconv.Itoa(i)+".cpu", 1, 16000))
+		p := w.addPod("web-"+strconv.Itoa(i), "", verifrt.MilliQuantity("web-"+strconv.Itoa(i)+".cpu", 1, 16000))
 		p.Labels = map[string]string{"app": "web"}
 		switch shape {
 		case 0:
